@@ -12,7 +12,7 @@ Grid.bounds_T are added by add_coupling_constraints).  SplineMethod.add_constrai
 add_coupling_constraints, so min/max are accepted by the grid constructor and never read.
 """
 import sys
-sys.path.insert(0, '/tmp/nx_pydeps')
+sys.path.insert(0, '/verif/pydeps')
 import numpy as np
 import casadi as ca
 from rockit import Ocp, FreeTime, UniformGrid, GeometricGrid, MultipleShooting, SplineMethod
